@@ -3,6 +3,7 @@ package merge
 import (
 	"bytes"
 	"context"
+	"encoding/json"
 	"errors"
 	"fmt"
 	"io"
@@ -15,6 +16,7 @@ import (
 
 	task "github.com/go-task/task/v3"
 	taskerrors "github.com/go-task/task/v3/errors"
+	"github.com/go-task/task/v3/internal/editors"
 	"github.com/go-task/task/v3/internal/templater"
 	"github.com/go-task/task/v3/taskfile"
 	"github.com/go-task/task/v3/taskfile/ast"
@@ -58,9 +60,13 @@ func exitCode(err error) int {
 
 // Tree is a generated include tree written to a temp dir.
 type Tree struct {
-	Root  string            // temp dir (absolute, symlinks resolved)
-	Files map[string]string // relative path -> content
-	Order []string
+	Root      string            // temp dir (absolute, symlinks resolved)
+	Files     map[string]string // relative path -> content
+	Order     []string
+	loads     int
+	listCache [3][]string
+	jsonCache []string
+	compCache []string
 }
 
 func writeTree(files map[string]string) (*Tree, error) {
@@ -242,12 +248,17 @@ type Load struct {
 	Code   int
 	Class  string
 	Stdout *bytes.Buffer
+	// task names in the order of: --list-all --json --no-status, --list-all --json, --list-all, --list --json --no-status
+	Listings [][]string
 }
 
-func (t *Tree) load(d *dumper, compiled bool) *Load {
+func (t *Tree) load(d *dumper, compiled bool) *Load { return t.loadL(d, compiled, false) }
+
+// loadL: one Executor.Setup; compiled: add the compiled digest; list: add the listings
+func (t *Tree) loadL(d *dumper, compiled, list bool) *Load {
 	l := &Load{Stdout: &bytes.Buffer{}}
 	e := task.NewExecutor(task.WithDir(t.Root), task.WithStdout(l.Stdout), task.WithStderr(io.Discard),
-		task.WithSilent(true), task.WithVersionCheck(true))
+		task.WithSilent(true), task.WithVersionCheck(true), task.WithColor(false))
 	res := guard(e.Setup)
 	l.Exec, l.Err, l.Panic = e, res.err, res.panic
 	switch {
@@ -264,11 +275,76 @@ func (t *Tree) load(d *dumper, compiled bool) *Load {
 	default:
 		var comp []string
 		if compiled {
-			comp = compiledDigest(e, d)
+			if t.loads%2 == 0 || t.compCache == nil {
+				t.compCache = compiledDigest(e, d)
+			}
+			comp = t.compCache
 		}
-		l.Coq = fmt.Sprintf("(STable %s %s)", d.fileCoq(e.Taskfile, false), d.SL(comp))
+		var lst []string
+		if list {
+			// even loads take the compiled digest, odd loads the JSON listing; the other half is repeated
+			l.Listings = listings(e, t.loads%2 == 0, &t.listCache, t.jsonCache)
+			t.jsonCache = l.Listings[0]
+			for _, names := range l.Listings {
+				lst = append(lst, d.SL(names))
+			}
+		}
+		t.loads++
+		l.Coq = fmt.Sprintf("(STable %s %s %s)", d.fileCoq(e.Taskfile, false), d.SL(comp), cg.List(lst))
 	}
 	return l
+}
+
+// listings runs Executor.ListTasks the way the CLI does and returns the task names in the order they are printed.
+func listings(e *task.Executor, full bool, cache *[3][]string, jsonCache []string) [][]string {
+	run := func(o task.ListOptions) []string {
+		buf := &bytes.Buffer{}
+		old := e.Stdout
+		e.Stdout = buf
+		defer func() { e.Stdout = old }()
+		var names []string
+		res := guard(func() error {
+			_, err := e.ListTasks(o)
+			return err
+		})
+		switch {
+		case res.panic != "":
+			return []string{"!panic " + res.panic}
+		case res.err != nil:
+			return []string{"!error"}
+		}
+		if o.FormatTaskListAsJSON {
+			var out editors.Taskfile
+			if err := json.Unmarshal(buf.Bytes(), &out); err != nil {
+				return []string{"!json"}
+			}
+			for _, t := range out.Tasks {
+				names = append(names, t.Name)
+			}
+			return names
+		}
+		for _, ln := range strings.Split(buf.String(), "\n") {
+			if strings.HasPrefix(ln, "* ") {
+				f := strings.Fields(ln[2:])
+				if len(f) > 0 {
+					names = append(names, strings.TrimSuffix(f[0], ":"))
+				}
+			}
+		}
+		return names
+	}
+	// the JSON listing (ToEditorOutput builds its entries in goroutines) is taken on every odd load, the other
+	// three once per tree; they are repeated in between, so that all loads have the same shape
+	a := jsonCache
+	if a == nil || !full {
+		a = run(task.NewListOptions(false, true, true, true))
+	}
+	if cache[0] == nil {
+		cache[0] = run(task.NewListOptions(false, true, true, false))
+		cache[1] = run(task.NewListOptions(false, true, false, false))
+		cache[2] = run(task.NewListOptions(true, false, true, true))
+	}
+	return [][]string{a, cache[0], cache[1], cache[2]}
 }
 
 // compiledDigest: for every task in table order, the fast-compiled command lines, deps and static variable values.
